@@ -545,7 +545,8 @@ IWLIST* iwlist_clone(const IWLIST *list) {
       free(nlist);
       return 0;
     }
-    memcpy(narray[i].val, array[i].val, size + 1);
+    memcpy(narray[i].val, array[i].val, size);
+    narray[i].size = array[i].size;
   }
   nlist->anum = num;
   nlist->array = narray;
